@@ -167,7 +167,7 @@ def run(chk):
 
     n_search = 60 if (thorough or chk.disagreements or chk.broken) else 18
     strata = [(0.05, "upper-triangle", True), (0.0, "upper-triangle", True), (0.5, "upper-triangle", False), (0.05, "square", False),
-              (5.0, "rectangle", False), (0.0, "square", True), (0.5, "rectangle", True)]
+              (5.0, "rectangle", False), (0.0, "square", True), (0.5, "rectangle", True), (0.0, "upper-triangle", False), (2.0, "upper-triangle", False)]
     for it in range(n_search):
         T = rng.choice([0.0, 0.0, 0.05, 0.5, 5.0, 50.0])
         forced = strata[it] if it < len(strata) else None
@@ -201,6 +201,8 @@ def run(chk):
             if forced:
                 shape = forced[1]
                 t1 = 0.0 if forced[2] else rng.randint(1, 4) * dt
+            if shape == "upper-triangle" and t1 != 0.0:
+                t1 = rng.choice([2.0, 3.0, 2.5, 0.5, 4.0, 1.0]) * dt          # offsets other than one cell size, off-grid ones too
             elif shape in ("square", "rectangle") and rng.random() < 0.3:
                 t1 = rng.choice([0.0, 0.5 * dt])                        # cells on / straddling the diagonal
             t2 = t1 + rng.randint(1, 3) * dt if shape == "rectangle" else None
